@@ -4,7 +4,7 @@
     apply_along_axes like Qn and the Gapper estimator. *)
 From Coq Require Import ZArith List Bool QArith Qcanon Qcabs Lia.
 Require Import SPP.Base.Rt SPP.Base.Iter SPP.Model.C15_np SPP.Gen.Stats.
-Require Import SPP.Proofs.C15_lib SPP.Proofs.C15_order SPP.Proofs.C15_rel SPP.Proofs.C15_equiv SPP.Proofs.C15_view SPP.Proofs.C15_lanes.
+Require Import SPP.Proofs.C15_lib SPP.Proofs.C15_order SPP.Proofs.C15_rel SPP.Proofs.C15_equiv SPP.Proofs.C15_view SPP.Proofs.C15_lanes SPP.Proofs.C15_lanes2.
 Import ListNotations.
 Open Scope Z_scope.
 
@@ -63,68 +63,240 @@ Section Equiv.
   Lemma half_sum_scale x y : (qdec 5 1 * (scale c x + scale c y) = scale c (qdec 5 1 * (x + y)))%Qc.
   Proof. unfold scale. ring. Qed.
 
+  (** what the last two lines compute at one sample *)
+  Lemma rd_dm_final sh A loc ML MR I : bc sh (shape A) -> bc sh (shape loc) -> bc sh (shape ML) -> bc sh (shape MR) ->
+    length I = length sh ->
+    rd (dm_final A loc ML MR) I =
+      if Qcltb (rd A I) (rd loc I) then rd ML I
+      else if Qcltb (rd loc I) (rd A I) then rd MR I else (qdec 5 1 * (rd ML I + rd MR I))%Qc.
+  Proof. intros BA BL BML BMR HI. unfold dm_final. cbv zeta.
+    assert (BMID : bc sh (shape (memo (np_mul (scalar (qdec 5 1)) (np_add ML MR))))).
+    { rewrite (memo_shape memo Hm). apply bc_map2; [now left|now apply bc_map2]. }
+    assert (BLT : bc sh (shape (np_lt A loc))) by now apply bc_map2.
+    assert (BGT : bc sh (shape (np_gt A loc))) by now apply bc_map2.
+    unfold np_where at 1. rewrite (rd_map3 sh) by (try assumption; now apply bc_map3).
+    unfold np_where. rewrite (rd_map3 sh) by assumption.
+    unfold np_lt, np_gt. rewrite !(rd_map2 sh) by assumption. rewrite !qtrue_qbool.
+    unfold rd at 7. rewrite (memo_shape memo Hm), (memo_get memo Hm). fold (rd (np_mul (scalar (qdec 5 1)) (np_add ML MR)) I).
+    unfold np_mul, np_add. rewrite !(rd_map2 sh) by (try assumption; try (now left); now apply bc_map2).
+    reflexivity. Qed.
+
+  Lemma dm_final_shape sh A loc ML MR : sh <> nil -> shape A = sh -> bc sh (shape loc) -> bc sh (shape ML) -> bc sh (shape MR) ->
+    shape (dm_final A loc ML MR) = sh.
+  Proof. intros Hsh HA BL BML BMR. unfold dm_final. cbv zeta.
+    assert (BMID : bc sh (shape (memo (np_mul (scalar (qdec 5 1)) (np_add ML MR))))).
+    { rewrite (memo_shape memo Hm). apply bc_map2; [now left|now apply bc_map2]. }
+    assert (BA : bc sh (shape A)) by (rewrite HA; apply bc_full).
+    assert (BW : bc sh (shape (np_where (np_gt A loc) MR (memo (np_mul (scalar (qdec 5 1)) (np_add ML MR)))))).
+    { unfold np_where. apply bc_map3; try assumption. now apply bc_map2. }
+    change (shape (np_where (np_lt A loc) ML (np_where (np_gt A loc) MR (memo (np_mul (scalar (qdec 5 1)) (np_add ML MR))))))
+      with (bshape (bshape (bshape (shape A) (shape loc)) (shape ML)) (shape (np_where (np_gt A loc) MR (memo (np_mul (scalar (qdec 5 1)) (np_add ML MR)))))).
+    rewrite HA. rewrite (bshape_full_l sh _ BL), (bshape_full_l sh _ BML), (bshape_full_l sh _ BW). reflexivity. Qed.
+
   Section DM.
-    Variables (A A' : nd) (axis : option Z).
+    Variables (A A' : nd) (axis : option Z) (sh : list Z).
     Hypothesis H : rel_of (affine a b) A A'.
     Hypothesis Hne : lanes_nonempty A axis.
+    Hypothesis HA : shape A = sh.
+    Hypothesis Hsh : sh <> nil.
     Let Hloc := dm_loc memo Hm a b Ha A A' axis H Hne.
     Let Hdev := dm_absdiff memo Hm a b Ha A A' axis H Hne.
 
-    Lemma rel_mid ML ML' MR MR' : rel_of (scale c) ML ML' -> rel_of (scale c) MR MR' ->
-      rel_of (scale c) (memo (np_mul (scalar (qdec 5 1)) (np_add ML MR))) (memo (np_mul (scalar (qdec 5 1)) (np_add ML' MR'))).
-    Proof. intros HL HR. apply rel_memo; [exact Hm|].
-      eapply (rel_map2 Qcmult (fun x => x) (scale c) (scale c)); [intros; unfold scale; ring|apply rel_scalar_id|].
-      eapply (rel_map2 Qcplus (scale c) (scale c) (scale c)); [intros; unfold scale; ring|exact HL|exact HR]. Qed.
+    Lemma dm_shapes B : shape B = sh ->
+      let loc := memo (np_reduce median1 B axis true) in
+      bc sh (shape loc) /\ shape (np_le B loc) = sh /\ shape (np_ge B loc) = sh /\ shape (np_abs (memo (np_sub B loc))) = sh.
+    Proof. intros HB loc. assert (BL : bc sh (shape loc)).
+      { unfold loc. rewrite (memo_shape memo Hm).
+        assert (B0 : bc (shape B) (shape (np_reduce median1 B axis true))) by (apply bc_reduce; rewrite HB; exact Hsh).
+        now rewrite HB in B0. }
+      split; [exact BL|]. cbn [shape np_le np_ge np_abs nd_map nd_map2 np_sub]. rewrite (memo_shape memo Hm). cbn [shape np_sub nd_map2].
+      rewrite HB. repeat split; now apply bshape_full_l. Qed.
 
-    Theorem scale_doublemad_equivariant :
-      rel_of (scale c) (scale_doublemad np_sqrt np_pi memo A axis) (scale_doublemad np_sqrt np_pi memo A' axis).
-    Proof. rewrite !scale_doublemad_unfold. cbv zeta. unfold dm_final. cbv zeta.
+    Theorem scale_doublemad_equivariant I : length I = length sh ->
+      rd (scale_doublemad np_sqrt np_pi memo A' axis) I = scale c (rd (scale_doublemad np_sqrt np_pi memo A axis) I).
+    Proof. intro HI. rewrite !scale_doublemad_unfold. cbv zeta.
+      assert (HA' : shape A' = sh) by (pose proof H as [Hs _]; congruence).
+      destruct (dm_shapes A HA) as [BL [SLE [SGE SX]]]. destruct (dm_shapes A' HA') as [BL' [SLE' [SGE' SX']]]. cbv zeta in *.
+      rewrite !(rd_dm_final sh) by (try assumption; try (rewrite ?HA, ?HA'; apply bc_full); apply dm_side_bc; assumption).
+      rewrite (rel_rd _ _ _ I H), (rel_rd _ _ _ I Hloc).
+      set (x := rd A I). set (m := rd (memo (np_reduce median1 A axis true)) I).
+      rewrite !Qcltb_alt.
       destruct (Qclt_le_dec (Q2Qc 0) a) as [Hp|Hn0].
-      - (* a > 0 *)
-        pose proof (affine_increasing a b Hp) as Hinc.
+      - pose proof (affine_increasing a b Hp) as Hinc. rewrite !Hinc.
         assert (HL : rel_of (scale c) (dm_side np_sqrt np_pi memo axis (np_le A (memo (np_reduce median1 A axis true))) (np_abs (memo (np_sub A (memo (np_reduce median1 A axis true))))))
                                      (dm_side np_sqrt np_pi memo axis (np_le A' (memo (np_reduce median1 A' axis true))) (np_abs (memo (np_sub A' (memo (np_reduce median1 A' axis true))))))).
         { apply (dm_side_rel np_sqrt np_pi memo Hm a Ha); [|exact Hdev].
-          apply (dm_mask_pos memo Hm a b Ha A A' axis H Hne Qcleb Hp). intros x y. now rewrite Hinc. }
+          apply (dm_mask_pos memo Hm a b Ha A A' axis H Hne Qcleb Hp). intros u v. now rewrite Hinc. }
         assert (HR : rel_of (scale c) (dm_side np_sqrt np_pi memo axis (np_ge A (memo (np_reduce median1 A axis true))) (np_abs (memo (np_sub A (memo (np_reduce median1 A axis true))))))
                                      (dm_side np_sqrt np_pi memo axis (np_ge A' (memo (np_reduce median1 A' axis true))) (np_abs (memo (np_sub A' (memo (np_reduce median1 A' axis true))))))).
         { apply (dm_side_rel np_sqrt np_pi memo Hm a Ha); [|exact Hdev].
-          apply (dm_mask_pos memo Hm a b Ha A A' axis H Hne (fun x y => Qcleb y x) Hp). intros x y. now rewrite Hinc. }
-        eapply (rel_map3 _ (fun x => x) (scale c) (scale c) (scale c)); [intros; apply where_scale| |exact HL|].
-        + apply (dm_mask_pos memo Hm a b Ha A A' axis H Hne Qcltb Hp). intros x y. rewrite !Qcltb_alt. now rewrite Hinc.
-        + eapply (rel_map3 _ (fun x => x) (scale c) (scale c) (scale c)); [intros; apply where_scale| |exact HR|now apply rel_mid].
-          apply (dm_mask_pos memo Hm a b Ha A A' axis H Hne (fun x y => Qcltb y x) Hp). intros x y. rewrite !Qcltb_alt. now rewrite Hinc.
-      - (* a < 0: the two sides are exchanged, the middle value is symmetric *)
-        assert (Hn : (a < Q2Qc 0)%Qc) by (destruct (Qcle_lt_or_eq _ _ Hn0) as [L|E]; [exact L|congruence]).
-        pose proof (fun x y => affine_decreasing a b x y Hn) as Hdec.
+          apply (dm_mask_pos memo Hm a b Ha A A' axis H Hne (fun u v => Qcleb v u) Hp). intros u v. now rewrite Hinc. }
+        rewrite (rel_rd _ _ _ I HL), (rel_rd _ _ _ I HR).
+        destruct (negb (Qcleb m x)); [reflexivity|]. destruct (negb (Qcleb x m)); [reflexivity|]. apply half_sum_scale.
+      - assert (Hn : (a < Q2Qc 0)%Qc) by (destruct (Qcle_lt_or_eq _ _ Hn0) as [L|E]; [exact L|congruence]).
+        pose proof (fun u v => affine_decreasing a b u v Hn) as Hdec. rewrite !Hdec.
         assert (HL : rel_of (scale c) (dm_side np_sqrt np_pi memo axis (np_ge A (memo (np_reduce median1 A axis true))) (np_abs (memo (np_sub A (memo (np_reduce median1 A axis true))))))
                                      (dm_side np_sqrt np_pi memo axis (np_le A' (memo (np_reduce median1 A' axis true))) (np_abs (memo (np_sub A' (memo (np_reduce median1 A' axis true))))))).
         { apply (dm_side_rel np_sqrt np_pi memo Hm a Ha); [|exact Hdev].
-          apply (dm_mask_neg memo Hm a b Ha A A' axis H Hne (fun x y => Qcleb y x) Qcleb). intros x y. now rewrite Hdec. }
+          apply (dm_mask_neg memo Hm a b Ha A A' axis H Hne (fun u v => Qcleb v u) Qcleb). intros u v. now rewrite Hdec. }
         assert (HR : rel_of (scale c) (dm_side np_sqrt np_pi memo axis (np_le A (memo (np_reduce median1 A axis true))) (np_abs (memo (np_sub A (memo (np_reduce median1 A axis true))))))
                                      (dm_side np_sqrt np_pi memo axis (np_ge A' (memo (np_reduce median1 A' axis true))) (np_abs (memo (np_sub A' (memo (np_reduce median1 A' axis true))))))).
         { apply (dm_side_rel np_sqrt np_pi memo Hm a Ha); [|exact Hdev].
-          apply (dm_mask_neg memo Hm a b Ha A A' axis H Hne Qcleb (fun x y => Qcleb y x)). intros x y. now rewrite Hdec. }
-        pose proof (rel_mid _ _ _ _ HR HL) as HMid.
-        set (ML := dm_side np_sqrt np_pi memo axis (np_le A _) _) in *. set (MR := dm_side np_sqrt np_pi memo axis (np_ge A _) _) in *.
-        set (ML' := dm_side np_sqrt np_pi memo axis (np_le A' _) _) in *. set (MR' := dm_side np_sqrt np_pi memo axis (np_ge A' _) _) in *.
-        (* mid' = c * mid up to the order of the two summands *)
-        assert (HMid2 : rel_of (scale c) (memo (np_mul (scalar (qdec 5 1)) (np_add ML MR))) (memo (np_mul (scalar (qdec 5 1)) (np_add ML' MR')))).
-        { destruct HMid as [S1 G1]. destruct HL as [HLs HLg]. destruct HR as [HRs HRg].
-          split.
-          - rewrite !(memo_shape memo Hm) in *. cbn [shape np_mul nd_map2 np_add scalar] in *. now rewrite HLs, HRs.
-          - intro idx. rewrite !(memo_get memo Hm). cbn [get shape np_mul nd_map2 np_add scalar]. rewrite HLs, HRs, HLg, HRg.
-            unfold scale. ring. }
-        clear HMid.
-        destruct H as [Hs Hg]. destruct Hloc as [Hls Hlg]. destruct HL as [HLs HLg]. destruct HR as [HRs HRg]. destruct HMid2 as [HMs HMg].
-        split.
-        + cbn [shape np_where nd_map3 np_lt np_gt nd_map2]. now rewrite Hs, Hls, HLs, HRs, HMs.
-        + intro idx. cbn [get shape np_where nd_map3 np_lt np_gt nd_map2]. rewrite Hs, Hls, HLs, HRs, HMs, !Hg, !Hlg, HLg, HRg, HMg.
-          rewrite !Qcltb_alt. rewrite !Hdec. rewrite !qtrue_qbool.
-          set (s1 := bshape (bshape (bshape (shape A) _) _) _).
-          set (x1 := get A _). set (m1 := get (memo (np_reduce median1 A axis true)) _).
-          set (x2 := get A _). set (m2 := get (memo (np_reduce median1 A axis true)) _).
-          admit.
-  Abort.
+          apply (dm_mask_neg memo Hm a b Ha A A' axis H Hne Qcleb (fun u v => Qcleb v u)). intros u v. now rewrite Hdec. }
+        rewrite (rel_rd _ _ _ I HL), (rel_rd _ _ _ I HR).
+        destruct (Qcleb m x) eqn:E1, (Qcleb x m) eqn:E2; cbn [negb]; try reflexivity.
+        + unfold scale. ring.
+        + apply Qcleb_false in E1. apply Qcleb_iff in E1. congruence. Qed.
   End DM.
 End Equiv.
+
+(** * lane handling (repaired tree) *)
+Section Lanes.
+  Variables (np_sqrt : Qc -> Qc) (np_pi : Qc) (memo : nd -> nd).
+  Hypothesis Hm : memo_ok memo.
+
+  Lemma scale_mad_core A axis : scale_mad np_sqrt np_pi memo A axis = np_squeeze_axis (mad_core np_sqrt np_pi memo A axis) axis.
+  Proof. reflexivity. Qed.
+
+  (** _scale_doublemad read through a pair of views *)
+  Lemma scale_doublemad_view V W : view_ok V -> view_ok W -> v_n W = v_n V -> forall A B, LRF V W A B ->
+    LRF V W (scale_doublemad np_sqrt np_pi memo A (v_axis V)) (scale_doublemad np_sqrt np_pi memo B (v_axis W)).
+  Proof. intros HV HW Hn A B HF. rewrite !(scale_doublemad_unfold np_sqrt np_pi memo). cbv zeta.
+    assert (HLoc : LR V W (memo (np_reduce median1 A (v_axis V) true)) (memo (np_reduce median1 B (v_axis W) true))) by lr.
+    assert (HX : LRF V W (np_abs (memo (np_sub A (memo (np_reduce median1 A (v_axis V) true))))) (np_abs (memo (np_sub B (memo (np_reduce median1 B (v_axis W) true)))))) by lr.
+    assert (HML : LR V W (dm_side np_sqrt np_pi memo (v_axis V) (np_le A (memo (np_reduce median1 A (v_axis V) true))) (np_abs (memo (np_sub A (memo (np_reduce median1 A (v_axis V) true))))))
+                         (dm_side np_sqrt np_pi memo (v_axis W) (np_le B (memo (np_reduce median1 B (v_axis W) true))) (np_abs (memo (np_sub B (memo (np_reduce median1 B (v_axis W) true))))))).
+    { apply (dm_side_LR V W HV HW Hn np_sqrt np_pi memo Hm); [lr|exact HX]. }
+    assert (HMR : LR V W (dm_side np_sqrt np_pi memo (v_axis V) (np_ge A (memo (np_reduce median1 A (v_axis V) true))) (np_abs (memo (np_sub A (memo (np_reduce median1 A (v_axis V) true))))))
+                         (dm_side np_sqrt np_pi memo (v_axis W) (np_ge B (memo (np_reduce median1 B (v_axis W) true))) (np_abs (memo (np_sub B (memo (np_reduce median1 B (v_axis W) true))))))).
+    { apply (dm_side_LR V W HV HW Hn np_sqrt np_pi memo Hm); [lr|exact HX]. }
+    set (MLx := dm_side np_sqrt np_pi memo (v_axis V) (np_le A _) _) in *. set (MRx := dm_side np_sqrt np_pi memo (v_axis V) (np_ge A _) _) in *.
+    set (MLy := dm_side np_sqrt np_pi memo (v_axis W) (np_le B _) _) in *. set (MRy := dm_side np_sqrt np_pi memo (v_axis W) (np_ge B _) _) in *.
+    split.
+    - unfold dm_final. cbv zeta. unfold np_where. pose proof (proj1 HF) as HF0. lr.
+    - destruct HF as [HF0 [S1 S2]]. destruct HLoc as [b1 b2 _]. destruct HML as [b3 b4 _]. destruct HMR as [b5 b6 _].
+      split; apply (dm_final_shape memo Hm); try assumption; apply vo_nonnil; assumption. Qed.
+
+  (** _scale_iqr: the shape is that of a keepdims=False reduction; an element is the difference of the two percentile
+      planes at that element, over the normalisation *)
+  Lemma scale_iqr_get A axis idx : in_range (shape (np_reduce (percentile1 (qz 0)) A axis false)) idx ->
+    shape (scale_iqr memo A axis) = shape (np_reduce (percentile1 (qz 0)) A axis false) /\
+    get (scale_iqr memo A axis) idx =
+      ((get (np_reduce (percentile1 (qz 75)) A axis false) idx - get (np_reduce (percentile1 (qz 25)) A axis false) idx)
+       / qdec 13489795003921634 16)%Qc.
+  Proof. intro Hin. unfold scale_iqr. fold quartiles.
+    assert (SP : tl (shape (memo (np_percentiles quartiles A axis false))) = shape (np_reduce (percentile1 (qz 0)) A axis false)).
+    { rewrite (memo_shape memo Hm). reflexivity. }
+    split.
+    - cbn [shape np_div np_sub nd_map2 np_index0 scalar]. rewrite SP, bshape_self. apply bshape_nil_r'.
+    - cbn [get shape np_div np_sub nd_map2 np_index0 scalar]. rewrite SP. rewrite bshape_self.
+      rewrite !(bidx_in_range _ idx Hin). rewrite !(memo_get memo Hm). reflexivity. Qed.
+
+  Section Along.
+    Variables (sh : list Z) (k0 : Z) (I0 : list Z) (A : nd).
+    Hypothesis Hsh : sh <> nil.
+    Hypothesis HA : shape A = sh.
+    Hypothesis HI : in_range sh I0.
+    Let k := axis_of sh k0.
+    Hypothesis Hn : 1 <= nth k sh 0.
+    Let L := lane A k I0.
+
+    Theorem scale_mad_lane :
+      shape (scale_mad np_sqrt np_pi memo A (Some k0)) = remove_nth k sh /\
+      get (scale_mad np_sqrt np_pi memo A (Some k0)) (remove_nth k I0) = get (scale_mad np_sqrt np_pi memo (of_vec L) None) nil.
+    Proof. rewrite !scale_mad_core. unfold L, k, axis_of in *.
+      pose proof (LRF_lane sh k0 I0 A Hsh HA HI ltac:(lia)) as HF. cbv zeta in HF.
+      pose proof (lane_view_ok sh k0 I0 Hsh HI) as HV. pose proof (vec_view_ok (nth (Z.to_nat (k0 mod Z.of_nat (length sh))) sh 0) ltac:(lia)) as HW.
+      pose proof (mad_core_LR _ _ HV HW eq_refl np_sqrt np_pi memo Hm A _ HF) as HC. cbn [v_axis lane_view vec_view] in HC.
+      assert (SM : shape (mad_core np_sqrt np_pi memo A (Some k0)) = set_nth (Z.to_nat (k0 mod Z.of_nat (length sh))) 1 sh).
+      { rewrite (mad_core_shape np_sqrt np_pi memo Hm) by (now rewrite HA). unfold np_reduce, reduce_axis, norm_axis, ndim. cbn [shape]. now rewrite HA. }
+      destruct (squeeze_axis_lane sh k0 I0 Hsh HI _ 0 SM ltac:(lia)) as [S1 G1]. split; [exact S1|]. rewrite G1.
+      assert (SY : shape (mad_core np_sqrt np_pi memo (of_vec (lane A (Z.to_nat (k0 mod Z.of_nat (length sh))) I0)) None) = 1 :: nil).
+      { rewrite (mad_core_shape np_sqrt np_pi memo Hm) by (cbn; discriminate). reflexivity. }
+      cbn [np_squeeze_axis]. destruct (squeeze_one _ 0 SY) as [_ G2]. rewrite G2.
+      apply (lr_rd _ _ _ _ HC 0). cbn [v_n lane_view]. lia. Qed.
+
+    (** _scale_sn goes through apply_along_axes *)
+    Theorem scale_sn_lane :
+      shape (scale_sn memo A (Some k0)) = remove_nth k sh /\
+      get (scale_sn memo A (Some k0)) (remove_nth k I0) = get (scale_sn memo (of_vec L) None) nil.
+    Proof. unfold scale_sn. rewrite (apply_along_axes_vec memo). now apply apply_along_axes_lane. Qed.
+
+    (** _scale_iqr: the two percentile planes are computed with keepdims=False *)
+    Definition iqr1 (l : vec) : Qc := ((percentile1 (qz 75) l - percentile1 (qz 25) l) / qdec 13489795003921634 16)%Qc.
+    Theorem scale_iqr_lane :
+      shape (scale_iqr memo A (Some k0)) = remove_nth k sh /\
+      get (scale_iqr memo A (Some k0)) (remove_nth k I0) = get (scale_iqr memo (of_vec L) None) nil.
+    Proof. unfold L, k, axis_of in *.
+      pose proof (fun f => reduce_nokd_lane sh k0 I0 Hsh HI f A HA) as R.
+      set (kk := Z.to_nat (k0 mod Z.of_nat (length sh))) in *.
+      destruct (scale_iqr_get A (Some k0) (remove_nth kk I0)) as [S1 G1].
+      { rewrite (proj1 (R _)). now apply in_range_remove_nth. }
+      destruct (scale_iqr_get (of_vec (lane A kk I0)) None nil) as [S2 G2]; [exact Logic.I|].
+      rewrite S1, G1, G2. split; [apply (R (percentile1 (qz 0)))|].
+      rewrite !(proj2 (R _)). unfold np_reduce, reduce_all. cbn [get]. now rewrite ravel_of_vec. Qed.
+
+    (** _scale_doublemad: one scale per sample; along the lane it is the 1-D estimator of the lane *)
+    Theorem scale_doublemad_lane j : 0 <= j < nth k sh 0 ->
+      shape (scale_doublemad np_sqrt np_pi memo A (Some k0)) = sh /\
+      get (scale_doublemad np_sqrt np_pi memo A (Some k0)) (set_nth k j I0)
+      = get (scale_doublemad np_sqrt np_pi memo (of_vec L) None) (j :: nil).
+    Proof. intro Hj. unfold L, k, axis_of in *. set (kk := Z.to_nat (k0 mod Z.of_nat (length sh))) in *.
+      pose proof (LRF_lane sh k0 I0 A Hsh HA HI ltac:(fold kk; lia)) as HF. cbv zeta in HF. fold kk in HF.
+      pose proof (lane_view_ok sh k0 I0 Hsh HI) as HV. pose proof (vec_view_ok (nth kk sh 0) ltac:(lia)) as HW.
+      destruct (scale_doublemad_view _ _ HV HW eq_refl A _ HF) as [HR [S1 S2]]. cbn [v_axis v_sh lane_view vec_view] in *.
+      split; [exact S1|].
+      rewrite <- (rd_full sh) by (try assumption; now apply in_range_set_nth).
+      rewrite <- (rd_full (nth kk sh 0 :: nil) _ (j :: nil)) by (try assumption; cbn; lia).
+      apply (lr_rd _ _ _ _ HR j). cbn [v_n lane_view]. fold kk. lia. Qed.
+  End Along.
+
+  (** axis=None: the whole array against the flattened data *)
+  Section Flat.
+    Variables (sh : list Z) (A : nd).
+    Hypothesis Hsh : sh <> nil.
+    Hypothesis HA : shape A = sh.
+    Hypothesis Hne : all_idx sh <> nil.      (* the array is not empty *)
+    Let N := Z.of_nat (length (all_idx sh)).
+    Lemma N_pos : 1 <= N.
+    Proof. unfold N. destruct (all_idx sh); [congruence|cbn; lia]. Qed.
+
+    Theorem scale_mad_flat :
+      shape (scale_mad np_sqrt np_pi memo A None) = nil /\
+      get (scale_mad np_sqrt np_pi memo A None) nil = get (scale_mad np_sqrt np_pi memo (of_vec (ravel A)) None) nil.
+    Proof. rewrite !scale_mad_core. pose proof N_pos as HN.
+      pose proof (LRF_flat sh A Hsh HA) as HF. fold N in HF.
+      pose proof (flat_view_ok sh Hsh) as HV. pose proof (vec_view_ok N ltac:(lia)) as HW.
+      pose proof (mad_core_LR _ _ HV HW eq_refl np_sqrt np_pi memo Hm A _ HF) as HC. cbn [v_axis flat_view vec_view] in HC.
+      assert (SM : shape (mad_core np_sqrt np_pi memo A None) = map (fun _ => 1) sh).
+      { rewrite (mad_core_shape np_sqrt np_pi memo Hm) by (now rewrite HA). unfold np_reduce, reduce_all. cbn [shape]. now rewrite HA. }
+      assert (HI0 : in_range sh (nth (Z.to_nat 0) (all_idx sh) nil)) by (apply in_range_all_idx, nth_In; fold N in HN |- *; lia).
+      cbn [np_squeeze_axis].
+      destruct (squeeze_ones sh _ (nth (Z.to_nat 0) (all_idx sh) nil) SM (in_range_length _ _ HI0)) as [S1 G1].
+      split; [exact S1|]. rewrite G1.
+      assert (SY : shape (mad_core np_sqrt np_pi memo (of_vec (ravel A)) None) = 1 :: nil).
+      { rewrite (mad_core_shape np_sqrt np_pi memo Hm) by (cbn; discriminate). reflexivity. }
+      destruct (squeeze_one _ 0 SY) as [_ G2]. rewrite G2.
+      apply (lr_rd _ _ _ _ HC 0). cbn [v_n flat_view]. fold N. lia. Qed.
+
+    Theorem scale_iqr_flat :
+      shape (scale_iqr memo A None) = nil /\
+      get (scale_iqr memo A None) nil = get (scale_iqr memo (of_vec (ravel A)) None) nil.
+    Proof. destruct (scale_iqr_get A None nil) as [S1 G1]; [exact Logic.I|].
+      destruct (scale_iqr_get (of_vec (ravel A)) None nil) as [S2 G2]; [exact Logic.I|].
+      rewrite S1, G1, G2. split; [reflexivity|]. unfold np_reduce, reduce_all. cbn [get]. now rewrite ravel_of_vec. Qed.
+
+    Theorem scale_doublemad_flat j : 0 <= j < N ->
+      shape (scale_doublemad np_sqrt np_pi memo A None) = sh /\
+      get (scale_doublemad np_sqrt np_pi memo A None) (nth (Z.to_nat j) (all_idx sh) nil)
+      = get (scale_doublemad np_sqrt np_pi memo (of_vec (ravel A)) None) (j :: nil).
+    Proof. intro Hj. pose proof (LRF_flat sh A Hsh HA) as HF. fold N in HF.
+      pose proof (flat_view_ok sh Hsh) as HV. pose proof (vec_view_ok N ltac:(lia)) as HW.
+      destruct (scale_doublemad_view _ _ HV HW eq_refl A _ HF) as [HR [S1 S2]]. cbn [v_axis v_sh flat_view vec_view] in *.
+      split; [exact S1|].
+      assert (HIj : in_range sh (nth (Z.to_nat j) (all_idx sh) nil)) by (apply in_range_all_idx, nth_In; fold N; lia).
+      rewrite <- (rd_full sh) by assumption.
+      rewrite <- (rd_full (N :: nil) _ (j :: nil)) by (try assumption; cbn; lia).
+      apply (lr_rd _ _ _ _ HR j). cbn [v_n flat_view]. fold N. lia. Qed.
+  End Flat.
+End Lanes.
